@@ -1,5 +1,6 @@
 (* Scratch: C10 — every expression the parser builds has the expected shape; Validate strengthens it *)
 Require Import Parser.
+Require Export Shape.
 From Coq Require Import List String ZArith Bool Lia Arith.
 Import ListNotations.
 Close Scope string_scope.
@@ -12,50 +13,7 @@ Section S.
 Variable o : oracle.
 Variable df : string.
 
-(* ---------- shapes ---------- *)
-Definition leaf_val (v : value) : bool := match v with VStr _ | VInt _ | VFloat _ | VCol _ => true | _ => false end.
-Definition is_leaf (e : expr) : bool :=
-  match e with
-  | E l Literal VNil _ _ => leaf_val l
-  | E (VStr _) Wild VNil _ _ | E (VStr _) Regexp VNil _ _ => true
-  | _ => false
-  end.
-Definition is_pattern (e : expr) : bool :=
-  match e with E (VStr _) Wild VNil _ _ | E (VStr _) Regexp VNil _ _ => true | _ => false end.
-Definition is_plain (e : expr) : bool := match e with E l Literal VNil _ _ => leaf_val l | _ => false end.
-
-(* strict = after Validate: field positions and range bounds are single terms *)
-Fixpoint wf (strict : bool) (e : expr) {struct e} : bool :=
-  match e with
-  | E l op r _ _ =>
-    match op with
-    | Literal | Wild | Regexp => is_leaf e
-    | Equals | Greater | Less | GreaterEq | LessEq =>
-        match l, r with
-        | VExp f, VExp v => (if strict then is_leaf f else wf strict f) && wf strict v &&
-                            (match op with Equals => negb (is_pattern v) | _ => true end)
-        | _, _ => false end
-    | Like =>
-        match l, r with VExp f, VExp v => (if strict then is_leaf f else wf strict f) && is_pattern v | _, _ => false end
-    | Tables.In =>
-        match l, r with
-        | VExp f, VExp (E (VList lits) Tables.List VNil _ _) =>
-            (if strict then is_leaf f else wf strict f) && (2 <=? List.length lits) && forallb is_plain lits
-        | _, _ => false end
-    | Range =>
-        match l, r with
-        | VExp f, VBound (VExp a) (VExp b) _ =>
-            (if strict then is_leaf f && is_leaf a && is_leaf b else wf strict f && wf strict a && wf strict b)
-        | _, _ => false end
-    | And | Or => match l, r with VExp a, VExp b => wf strict a && wf strict b | _, _ => false end
-    | Not | Must | MustNot | Boost | Fuzzy => match l, r with VExp a, VNil => wf strict a | _, _ => false end
-    | Undefined | Tables.List => false
-    end
-  end.
-
 (* ---------- what the constructors build ---------- *)
-Definition colwrap (t : expr) : expr := match e_left t with VStr s => lit (VCol s) | _ => t end.
-
 Lemma is_leaf_wf b e : is_leaf e = true -> wf b e = true.
 Proof. destruct e as [l op r bo fu]. destruct op, l, r; cbn; try discriminate; auto. Qed.
 
